@@ -134,7 +134,6 @@ class ProcessExecutor:
         futures_to_start = list(self._pending_future_to_thunk.keys())[:start_count]
         for future in futures_to_start:
             thunk = self._pending_future_to_thunk[future]
-            del self._pending_future_to_thunk[future]
             process = self.mp_context.Process(
                 target=_subprocess_target,
                 kwargs=dict(
@@ -143,7 +142,11 @@ class ProcessExecutor:
                     result_queue=self._result_queue,
                 ),
             )
+            # Track the process before forgetting the pending future,
+            # so that the future cannot be lost (and never finish)
+            # if we are interrupted here.
             self._running_id_to_future_and_process[future.id] = (future, process)
+            del self._pending_future_to_thunk[future]
             process.start()
 
     def submit(self, fn: Callable, /, *args, **kwargs) -> Future:
@@ -166,7 +169,8 @@ class ProcessExecutor:
         """Cancel all running futures and immediately terminate their execution."""
         future_process_pairs = list(self._running_id_to_future_and_process.values())
         for future, process in future_process_pairs:
-            process.terminate()
+            if process.is_alive():
+                process.terminate()
             future.cancel()
             del self._running_id_to_future_and_process[future.id]
 
